@@ -48,6 +48,7 @@ def rearm(ctx: Any) -> List[Ob]:
     timer (stores a new loop timer in _next_run); and no exception can leave the
     callback, so the re-arm is always reached."""
     R = 'C10.REARM'
+    prog = ctx.prog
     obs: List[Ob] = []
     cbs = scheduler_callbacks(ctx)
     from .c15 import RESIDUAL, run_ex
@@ -69,6 +70,16 @@ def rearm(ctx: Any) -> List[Ob]:
         obs.append(ob(R, f, 'self._next_run = self._loop.call_at(...)', 'while the instance is open every path through the callback re-arms the scheduler timer', bool(oc) and not bad, f'{len(bad)} path(s) leave without re-arming' if bad else ''))
         twice = [t for t in oc if t.count('ARM') > 1]
         obs.append(ob(R, f, 'self._next_run = ...', 'the timer is armed once per run (no orphan timers)', not twice))
+        # ... and while it is closed nothing happens at all: with the flag set, every path leaves before it sends or re-arms
+        if atoms:
+            sends = [n for n in cfg_of(f.node).nodes if any(call_name(c) in ('async_send_ready_queries', 'async_send') for c in n.calls())]
+
+            def eff_c(node: Any, evl: Any, arms=arms, sends=sends) -> List[Any]:
+                return (['ARM'] if node in arms else []) + (['SEND'] if node in sends else [])
+
+            oc_c, _ = traces(ctx, f, {k: True for k in atoms}, eff_c, loop_bound=1)
+            live_c = sorted({x for t in oc_c for x in t if x in ('ARM', 'SEND')})
+            obs.append(ob(R, f, 'if self._zc.done: return', 'with the instance closed the callback neither sends nor re-arms (the closed test leaves the callback)', bool(oc_c) and not live_c, f'still reached with the flag set: {live_c}'))
         esc = {k: o for k, o in mr.escaping(f).items()}
         live = []
         for (k, where, line), o in esc.items():
@@ -77,6 +88,31 @@ def rearm(ctx: Any) -> List[Ob]:
                 continue  # residual sites: side conditions are decided under C15.ESCAPE
             live.append((k, o))
         obs.append(ob(R, f, f'{f.qual} may-raise set', 'no exception can leave the callback before the timer is re-armed', not live, '; '.join(k.split('.')[-1] for k, _ in live), live[0][1].describe() if live else None))
+    # what the scheduler generated is sent: every message the query builder hands back goes to the transmit routine, with the
+    # browser's own destination (one call per message, no filter)
+    sq = prog.cls(QS).methods['async_send_ready_queries']
+    sme = sq.params[0]
+    gen_names = {t.id for st_ in walk_local_ordered(sq.node) if isinstance(st_, ast.Assign) and isinstance(st_.value, ast.Call) and call_name(st_.value) == 'generate_service_query' for t in st_.targets if isinstance(t, ast.Name)}
+    sloops = [lp for lp in walk_local_ordered(sq.node) if isinstance(lp, ast.For) and isinstance(lp.iter, ast.Name) and lp.iter.id in gen_names and isinstance(lp.target, ast.Name)]
+    ok_s, why_s = False, 'no loop over the generated messages'
+    if len(sloops) == 1:
+        scfg = cfg_of(sq.node)
+        shead = next(n for n in scfg.nodes if n.kind == 'for' and n.ast is sloops[0])
+        tvs = sloops[0].target.id
+        oc_s, _ = fd.run_paths(prog, sq.module, scfg, {}, lambda node, evl: [('SEND', tuple(norm(a) for a in c.args)) for c in fd.node_calls(node, evl) if call_name(c) == 'async_send'], start=shead, stop=lambda n: n is shead, loop_bound=1, for_iter=lambda n, e: True)
+        per_s = {tuple(x for x in strip_ret(t) if isinstance(x, tuple)) for t in oc_s}
+        ok_s = per_s == {(('SEND', (tvs, f'{sme}._addr', f'{sme}._port')),)}
+        why_s = f'per message: {sorted(map(str, per_s))[:2]}'
+        # the loop itself is reached whenever there is something to send: no path from the generation to the exit avoids the
+        # loop except through a test of the generated list
+        gnode = [n for n in scfg.nodes if any(call_name(c) == 'generate_service_query' for c in n.calls())]
+        byp = scfg.path_avoiding(gnode[0], lambda n: n is scfg.exit, lambda n: n is shead or (n.kind == 'test' and norm(n.ast) in gen_names)) if gnode else [None]
+        ok_s = ok_s and byp is None
+        why_s += '' if byp is None else '; a path reaches the end without the send loop or a test of the generated list'
+        tests_s = [n for n in scfg.nodes if n.kind == 'test' and norm(n.ast) in gen_names]
+        ok_s = ok_s and all(scfg.only_through_edge(t_, True, shead) for t_ in tests_s)
+        why_s += '' if all(scfg.only_through_edge(t_, True, shead) for t_ in tests_s) else '; the send loop is not on the non-empty arm of the test'
+    obs.append(ob(R, sq, sloops[0] if sloops else 'for out in outs: self._zc.async_send(out, self._addr, self._port)', 'every generated query message is sent, to the browser\'s destination', ok_s, why_s))
     # the scheduler can only move a refresh query if it is told of the refresh: the record manager reports every live record
     from .c06 import pair_per_live_record
 
@@ -337,7 +373,9 @@ def pair(ctx: Any) -> List[Ob]:
         w_ = cfg.must_pass_before_exit(drain[0], lambda n: n in rescue_loops)
         obs.append(ob(R, proc, rescue_loops[0].ast.iter, 'the rescue queries of the entries taken from the heap are armed on every path (not only when a query was actually sent)', w_ is None, 'a path reaches the end of the routine without arming the rescue queries' if w_ is not None else ''))
     elif not direct:
-        raise AnalysisError('anchor vanished: where _process_ready_types arms the rescue queries')
+        from sa import StructuralViolation
+
+        raise StructuralViolation(proc.module.rel, proc.qual, 'for query in rescue: self.schedule_rescue_query(query, now, 10 %)', 'an entry taken from the heap for sending gets its rescue query (the next 10 % step) armed', 'no call of schedule_rescue_query is left in the routine: a record is asked for once, at 75 %, and never again before it expires')
     canc = dict(atoms)
     canc[f'{me}._query_heap'] = ['q']
     canc['.cancelled'] = True
@@ -385,13 +423,26 @@ def pair(ctx: Any) -> List[Ob]:
     pops = [c for c in walk_local_ordered(cf.node) if isinstance(c, ast.Call) and call_name(c) == 'pop' and isinstance(c.func, ast.Attribute) and self_attr(c.func.value, me) == '_next_scheduled_for_alias']
     flags = [st for t, st in attr_stores(cf.node) if t.attr == 'cancelled' and isinstance(st, ast.Assign) and isinstance(st.value, ast.Constant) and st.value.value is True]
     obs.append(ob(R, cf, 'scheduled = self._next_scheduled_for_alias.pop(...); scheduled.cancelled = True', 'withdrawal removes the map entry and flags the heap entry cancelled', len(pops) == 1 and len(flags) == 1))
+    for has in (True, False):
+        def eff_cf(node: Any, evl: Any) -> List[Any]:
+            out = []
+            if node.kind == 'stmt':
+                for t_, st_ in attr_stores(node.ast):
+                    if t_.attr == 'cancelled' and isinstance(st_, ast.Assign):
+                        out.append(('FLAG', evl.ev(st_.value) if evl.ev(st_.value) in (True, False) else norm(st_.value)))
+            return out
+
+        oc_cf, und_cf = traces(ctx, cf, {'.pop()': fd.Sym('scheduled') if has else None}, eff_cf, loop_bound=1)
+        got_cf = {tuple(x for x in strip_ret(t) if isinstance(x, tuple) and x[0] == 'FLAG') for t in oc_cf}
+        want_cf = {(('FLAG', True),)} if has else {()}
+        obs.append(ob(R, cf, f'withdrawal, the alias {"has" if has else "has no"} scheduled query', 'the scheduled query is flagged cancelled (True) exactly when there is one', got_cf == want_cf and not und_cf, f'got {sorted(map(str, got_cf))}; undecided {und_cf}'))
     rf = qs.methods['reschedule_ptr_first_refresh']
     me = rf.params[0]
     rcfg = cfg_of(rf.node)
     # the push: the scheduling primitive itself, or a helper of the class that reaches it
     pushers = {m_.name for m_ in qs.methods.values() if m_ is not rf and any(g_.name == '_schedule_ptr_refresh' and g_.cls is qs for g_ in ctx.cg.closure([m_], include_deferred=False))}
     sched = [n for n in rcfg.nodes if any(call_name(c) in pushers and isinstance(c.func, ast.Attribute) and isinstance(c.func.value, ast.Name) and c.func.value.id == me for c in n.calls())]
-    flag_nodes = [n for n in rcfg.nodes if n.kind == 'stmt' and any(t.attr == 'cancelled' for t, _ in attr_stores(n.ast))]
+    flag_nodes = [n for n in rcfg.nodes if n.kind == 'stmt' and any(t.attr == 'cancelled' and isinstance(st_, ast.Assign) and isinstance(st_.value, ast.Constant) and st_.value.value is True for t, st_ in attr_stores(n.ast))]
     unmap = [n for n in rcfg.nodes if n.kind == 'stmt' and (isinstance(n.ast, ast.Delete) or any(call_name(c) == 'pop' for c in n.calls()))]
     # on the path where a current schedule exists and is superseded, both happen before the new push
     oc3, _ = fd.run_paths(prog, rf.module, rcfg, {'.get()': fd.Sym('current'), '.when_millis': -10.0**12, '.get_expiration_time()': 0.0, '._min_time_between_queries_millis': 10000}, lambda n, e: (['FLAG'] if n in flag_nodes else []) + (['UNMAP'] if n in unmap else []) + (['PUSH'] if n in sched else []))
